@@ -6,6 +6,11 @@ BASE = json.load(open("/root/.vp/BASELINE.json"))["cmd"] if os.path.exists("/roo
     "cd /repo && /venv/bin/python -m pytest -ra -q -p no:cacheprovider --timeout=900 --continue-on-collection-errors"
 
 CLAIMED = {
+ "C07": dict(
+    technique="static analysis: key-vocabulary agreement between Python writers/readers and the C kernels' dictionary lookups, co-update rule for inverse pairs via the effect table, saved-counterpart pairing of cpl's save/restore copies, typestate rule 'clobbered by a failed in-place factorisation => rebuild before reuse', contribution-set agreement of the assembly sites, block-offset algebra",
+    text="The linear-algebra identities of C07 are numerical and NOT decided. Decided structural necessary conditions: one key vocabulary for the scaling dictionary across coneprog/cvxprog/misc and misc_solvers.c and complete key sets at every creation site; inverse pairs d/di, dnl/dnli, r/rti co-updated in every function that writes one member; cpl's save/restore copies go between each object and its own saved counterpart; in the kkt_* factories a matrix whose in-place factorisation failed is rebuilt by an overwriting operation before it is read or accumulated into, and all assembly sites of one matrix add the same contributions; block-offset discipline in compute_scaling/update_scaling/kkt_*.",
+    note="Trusted: CPython ast, sa/effects.py effect table, clang for the string literals in misc_solvers.c; BLAS/LAPACK/CHOLMOD.",
+    ref="DESIGN.md section 3, C07"),
  "C11": dict(
     technique="static analysis: interprocedural alias/effect analysis through attributes and containers (operands not written), return-shape rules, CFG fall-through rule for refusal paths, lost-update (swap without temporary) rule, convex/concave mirror-symmetry of statements",
     text="Static over the expression classes of modeling.py: no operator or term-merging helper writes in place to an object reachable from an argument other than self; regular operators never return an operand and in-place forms return self; every path through an operator returns a value or raises; attributes recomputed from each other go through a temporary; the convex and concave sides of every method are mirror-image code (cvx<->ccv, max<->min). It does NOT decide that value() equals the formula or that len() follows the broadcasting rule.",
